@@ -346,7 +346,9 @@ def canon_query(q: Any) -> Any:
 def _strip(res: dict) -> Any:
     """error messages embed object reprs (parents, sources): compare class + rule, and the queries"""
     out = {"ok": res.get("ok"), "exc": res.get("exc")}
-    out["errors"] = [(e.get("rule"), e.get("exc")) for e in res.get("errors", [])]
+    # which rules fail, not with which error: a rule with two unconvertible items fails on whichever
+    # comes first, and writing duplicate keys as one 'key|all' item legitimately moves operands
+    out["errors"] = sorted(str(e.get("rule")) for e in res.get("errors", []))
     return out
 
 
